@@ -65,6 +65,9 @@ func (e *Engine) verifyFunction(fn *ssa.Function, impl *Contract) (un *Unit, err
 		}
 	}
 	f := &Frame{un: un, fn: fn, vals: map[ssa.Value]Val{}, contract: ct}
+	if ct != nil {
+		f.clausePkg = ct.Pkg // the unit's own contract (e.g. an interface contract it implements) names types of its package
+	}
 	st := State{R: tTrue, H: map[string]Term{}}
 	next0 := un.heapInit("$next", SInt)
 	un.assume(&st, Ge(next0, IntLit(0)))
